@@ -91,6 +91,11 @@ def gen(S, tier):
     listeners = []
     for _ in range(f.weighted([(0, 6), (1, 3), (2, 1)])):
         listeners.append([f.pick([-10, 0, 5]), f.weighted([("pass", 4), ("handle", 3), ("fail", 2)]), f.pick([0, 3, 300, -2, "9"])])
+    prior = [srcgen.gen_exc_spec(f) for _ in range(f.weighted([(0, 6), (1, 3), (2, 1)]))]
+    if prior and outcome[0] == "raise" and isinstance(outcome[1], dict) and f.chance(0.35):
+        first, second = srcgen.interacting_pair(f)
+        prior[-1] = dict(prior[-1], msg=first, type=f.pick(["ValueError", "CliKitLike", "RuntimeError"]))
+        outcome[1] = dict(outcome[1], msg=second)
     return {
         "app": spec, "path": path, "tail": tail, "exp_args": exp_args, "exp_opts": exp_opts,
         "target_hid": target["hid"], "verbosity": c.pick(["", "", "-v", "-vv", "-vvv"]), "quiet": c.chance(0.1),
@@ -100,7 +105,7 @@ def gen(S, tier):
         "handler_kind": c.pick(["object", "object", "callback", "callback_var"]),
         # failing runs of the same process *before* the run under test (another application object,
         # another message): what their error reports leave behind must not matter
-        "prior": [srcgen.gen_exc_spec(f) for _ in range(f.weighted([(0, 6), (1, 3), (2, 1)]))],
+        "prior": prior,
     }
 
 
